@@ -244,7 +244,10 @@ def hook_codes():
              ("apischema.conversions.conversions", "LazyConversion"),
              ("apischema.deserialization", "deserialization_method_factory"), ("apischema.deserialization", "DeserializationMethodFactory"),
              ("apischema.serialization", "serialization_method_factory"),
-             ("apischema.validation.dependencies", "find_all_dependencies"), ("apischema.objects.getters", "object_fields")]
+             ("apischema.validation.dependencies", "find_all_dependencies"), ("apischema.objects.getters", "object_fields"),
+             ("apischema.validation.validators", "get_validators"), ("apischema.conversions.converters", "default_deserialization"),
+             ("apischema.conversions.converters", "default_serialization"), ("apischema.serialization.serialized_methods", "get_serialized_methods"),
+             ("apischema.type_names", "get_type_name")]
     for modname, attr in named:
         try:
             obj = getattr(importlib.import_module(modname), attr)
@@ -268,11 +271,13 @@ def hook_codes():
 class Policy:
     """per-thread policy evaluated at every hook event"""
 
-    def __init__(self, kind="count", rng=None, p=0.0, sched=None, role=None):
-        self.kind, self.rng, self.p, self.sched, self.role = kind, rng, p, sched, role
+    def __init__(self, kind="count", rng=None, p=0.0, sched=None, role=None, first_n=2):
+        self.kind, self.rng, self.p, self.sched, self.role, self.first_n = kind, rng, p, sched, role, first_n
+        self.sites = {}
         self.events = 0
         self.yields = 0
         self.last = None
+        self.trace = []
 
 
 class Injector:
@@ -313,8 +318,19 @@ class Injector:
         kind = pol.kind
         if kind == "count":
             return
+        if kind == "trace":
+            pol.trace.append((code.co_qualname, line))
+            return
         if kind == "yield":
-            if pol.rng.random() < pol.p:
+            # the first occurrences of a hook site in this thread are the first-use points: always give way there (a real,
+            # short sleep); afterwards a seeded coin decides (sleep(0) = release the GIL)
+            site = (code, line)
+            n = pol.sites.get(site, 0)
+            pol.sites[site] = n + 1
+            if n < pol.first_n:
+                pol.yields += 1
+                time.sleep(pol.rng.choice((0.0, 5e-5, 2e-4)))
+            elif pol.rng.random() < pol.p:
                 pol.yields += 1
                 time.sleep(0)
             return
